@@ -40,6 +40,8 @@ ASSUMPTIONS = [
     "Python's round(): the constant c of misorientations_random per system is a table in the model, compared with the formula each run",
 ]
 JIT_TWIN = ('utils',)   # groups of harness/jittwin.py: the numba-compiled code is run on the same battery and compared
+PRE_LEAN = C.s2_trace_quat   # S2: utils.quat_product re-traced on every run
+EXTRA_LEAN_MODULES = ("Bridge.Quat",)
 TRUSTED = ["scipy Rotation.from_matrix(...).as_quat() (external: the harness passes the same quaternions to the model)"]
 
 import json as _json
